@@ -237,6 +237,7 @@ int main(int argc, char** argv, const Harness& h) {
     std::sort(all.begin(), all.end()); size_t d = std::unique(all.begin(), all.end()) - all.begin();
     printf("%zu\n", d); return 0;
   }
+  static std::string absOut; if (outdir[0] != '/') { char cwd[4096]; if (getcwd(cwd, sizeof cwd)) { absOut = std::string(cwd) + "/" + outdir; outdir = absOut.c_str(); } }   // harnesses may chdir
   installHandlers();
   setvbuf(stdout, 0, _IOLBF, 0);
 
